@@ -7,6 +7,7 @@ package muxdrv
 import (
 	"bufio"
 	"encoding/json"
+	"errors"
 	"fmt"
 	"net"
 	"os"
@@ -19,6 +20,7 @@ import (
 	"github.com/containerd/nri/pkg/vhook"
 
 	"verif/harness/isolate"
+	"verif/harness/rawpeer"
 	"verif/harness/rec"
 )
 
@@ -28,7 +30,8 @@ type TabOp struct {
 }
 
 type TabScenario struct {
-	Ops []TabOp `json:"ops"`
+	Ops     []TabOp `json:"ops"`
+	Blocked bool    `json:"blocked"` // created WithBlockedRead(): the reader starts with the first Unblock
 }
 
 // realID maps the connection ids of the scenarios to ids spread over the whole 32-bit range.
@@ -71,8 +74,15 @@ func readOnce(c net.Conn, wait time.Duration) readRes {
 	}
 }
 
+// hangs counts scenarios in which Close of the multiplexer did not return; after a few of them the remaining
+// scenarios of that shape are not replayed (each would cost seconds, the verdict is already there)
+var hangs int
+
+// readHangs counts scenarios in which a read that must return did not (seconds each): after ten of them nothing more is replayed
+var readHangs int
+
 func tabOne(scn int, sc TabScenario) ([]rec.Event, error) {
-	evs := []rec.Event{{"ev": "Begin", "scn": scn, "ops": sc.Ops}}
+	evs := []rec.Event{{"ev": "Begin", "scn": scn, "ops": sc.Ops, "blocked": sc.Blocked}}
 	ca, cb, err := socketPair()
 	if err != nil {
 		return nil, err
@@ -95,13 +105,40 @@ func tabOne(scn int, sc TabScenario) ([]rec.Event, error) {
 		}
 	})
 	defer vhook.Set(nil)
-	a := multiplex.Multiplex(ca, multiplex.WithReadQueueLength(64))
+	var ta net.Conn = ca
+	if scn%2 == 1 {
+		// a transport whose Close reports an error (it is closed all the same): nothing may depend on the report
+		cut := rawpeer.NewCutter(ca)
+		cut.CloseErr = errors.New("verif: transport reports an error on close")
+		ta = cut
+	}
+	aopts := []multiplex.Option{multiplex.WithReadQueueLength(64)}
+	if sc.Blocked {
+		aopts = append(aopts, multiplex.WithBlockedRead())
+	}
+	a := multiplex.Multiplex(ta, aopts...)
 	b := multiplex.Multiplex(cb, multiplex.WithReadQueueLength(64))
+	// Close of the multiplexer under a deadline: it must return whether or not the reader was ever started
+	hungA := false
+	closeA := func() bool {
+		if hungA {
+			return false
+		}
+		ch := make(chan struct{})
+		go func() { a.Close(); close(ch) }()
+		select {
+		case <-ch:
+			return true
+		case <-time.After(2 * time.Second):
+			hungA = true
+			return false
+		}
+	}
 	mu.Lock()
 	muxA = a
 	mu.Unlock()
 	defer b.Close()
-	defer a.Close()
+	defer closeA()
 	handles := []net.Conn{}
 	peers := map[int]net.Conn{}
 	sent := 0
@@ -198,8 +235,16 @@ func tabOne(scn int, sc TabScenario) ([]rec.Event, error) {
 			r := readOnce(handles[op.X-1], time.Second)
 			e["r"], e["n"] = r.R, r.N
 		case "MClose":
-			a.Close()
 			closed = true
+			if !closeA() {
+				// the rest of the scenario would only wait for the same hang again
+				e["r"] = "hung"
+				evs = append(evs, e)
+				hangs++
+				return append(evs, rec.Event{"ev": "End", "scn": scn, "final": []readRes{}}), nil
+			}
+		case "Unblock":
+			a.Unblock()
 		default:
 			return nil, fmt.Errorf("unknown table operation %q", op.Op)
 		}
@@ -207,12 +252,24 @@ func tabOne(scn int, sc TabScenario) ([]rec.Event, error) {
 	}
 done:
 	if !closed {
-		a.Close()
-		evs = append(evs, rec.Event{"ev": "Op", "scn": scn, "i": len(sc.Ops) + 1, "op": "MClose", "x": 0, "r": "", "n": 0, "h": 0, "same": true})
+		r := ""
+		if !closeA() {
+			r = "hung"
+			hangs++
+		}
+		evs = append(evs, rec.Event{"ev": "Op", "scn": scn, "i": len(sc.Ops) + 1, "op": "MClose", "x": 0, "r": r, "n": 0, "h": 0, "same": true})
+		if r == "hung" {
+			return append(evs, rec.Event{"ev": "End", "scn": scn, "final": []readRes{}}), nil
+		}
 	}
 	final := []readRes{}
+	stuck := false
 	for _, h := range handles {
 		final = append(final, readOnce(h, time.Second))
+		stuck = stuck || final[len(final)-1].R == "blocked"
+	}
+	if stuck {
+		readHangs++
 	}
 	evs = append(evs, rec.Event{"ev": "End", "scn": scn, "final": final})
 	return evs, nil
@@ -246,6 +303,13 @@ func RunTable(in, out string, skip int) error {
 		var s TabScenario
 		if err := json.Unmarshal([]byte(line), &s); err != nil {
 			return fmt.Errorf("scenario %d: %w", n, err)
+		}
+		if (hangs >= 5 && s.Blocked) || readHangs >= 10 {
+			// not replayed (see hangs): recorded as such
+			if err := w.WriteScenario([]rec.Event{{"ev": "Begin", "scn": n, "ops": s.Ops, "blocked": s.Blocked}, {"ev": "skipped", "scn": n}, {"ev": "End", "scn": n, "final": []readRes{}}}); err != nil {
+				return err
+			}
+			continue
 		}
 		done := isolate.Guard(30*time.Second, fmt.Sprintf("table scenario %d", n))
 		evs, err := tabOne(n, s)
